@@ -308,15 +308,64 @@ func summarizeSig(s *dag.Summarize) string {
 	return string(b)
 }
 
-// missingKeyAsNull rewrites the FIRST key k (or the first argument of a key
-// function) of the selected summarizes into `missing(k) ? null : k`, so that
+// noStreamingAfterCombine is applied to an OPTIMIZED plan: it takes the input
+// sort direction out of the summarizes that are fed through a combine, i.e.
+// that follow a fork or switch with several branches without a merge, join or
+// sort in between (several parents reach an operator interleaved in arrival
+// order, whatever order each of them has).  It reports how many it changed.
+func noStreamingAfterCombine(n *int) func(dag.Seq) {
+	var walk func(seq dag.Seq, combined bool) bool
+	walk = func(seq dag.Seq, combined bool) bool {
+		for _, op := range seq {
+			switch op := op.(type) {
+			case *dag.Fork:
+				for _, p := range op.Paths {
+					walk(p, combined)
+				}
+				combined = combined || len(op.Paths) > 1
+			case *dag.Switch:
+				for _, c := range op.Cases {
+					walk(c.Path, combined)
+				}
+				combined = combined || len(op.Cases) > 1
+			case *dag.Scope:
+				combined = walk(op.Body, combined)
+			case *dag.Over:
+				walk(op.Body, false)
+			case *dag.Merge, *dag.Join, *dag.Sort:
+				combined = false
+			case *dag.Summarize:
+				if combined && op.InputSortDir != 0 {
+					op.InputSortDir = 0
+					*n++
+				}
+				combined = false
+			}
+		}
+		return combined
+	}
+	return func(seq dag.Seq) { walk(seq, false) }
+}
+
+// bothCausesAgree runs the optimized plan with the missing keys put into the
+// null group AND the direction taken out of the combine-fed summarizes, and
+// compares it with pm (the plan as analysed with the same key rewrite).
+func bothCausesAgree(seq ast.Seq, src source, pm result, compare func(a, b []zed.Value) string) bool {
+	var n1, n2 int
+	f1, f2 := missingKeyAsNull(nil, true, &n1), noStreamingAfterCombine(&n2)
+	r := runOnePost(seq, src, true, nil, func(seq dag.Seq) { f1(seq); f2(seq) })
+	return r.stage == "" && compare(pm.vals, r.vals) == ""
+}
+
+// missingKeyAsNull rewrites the FIRST key k (or f(k) for a key function f) of
+// the selected summarizes into `missing(k) ? null : k` (`... : f(k)`), so that
 // a missing key falls into the null group.  Selected are the summarizes with
 // an input sort direction (streaming, for an optimized plan) or those whose
 // identity is in sigs (for the plan as analysed).  It reports how many it rewrote.
 func missingKeyAsNull(sigs map[string]bool, streaming bool, n *int) func(dag.Seq) {
-	wrap := func(e dag.Expr) dag.Expr {
+	wrap := func(k, e dag.Expr) dag.Expr {
 		return &dag.Conditional{Kind: "Conditional",
-			Cond: &dag.Call{Kind: "Call", Name: "missing", Args: []dag.Expr{e}},
+			Cond: &dag.Call{Kind: "Call", Name: "missing", Args: []dag.Expr{k}},
 			Then: &dag.Literal{Kind: "Literal", Value: "null"},
 			Else: e}
 	}
@@ -330,13 +379,14 @@ func missingKeyAsNull(sigs map[string]bool, streaming bool, n *int) func(dag.Seq
 				switch rhs := s.Keys[0].RHS.(type) {
 				case *dag.This:
 					if len(rhs.Path) > 0 {
-						s.Keys[0].RHS = wrap(rhs)
+						s.Keys[0].RHS = wrap(rhs, rhs)
 						*n++
 					}
 				case *dag.Call:
+					// f(k): the group of the values without k becomes null as well
 					if len(rhs.Args) > 0 {
 						if this, ok := rhs.Args[0].(*dag.This); ok && len(this.Path) > 0 {
-							rhs.Args[0] = wrap(this)
+							s.Keys[0].RHS = wrap(this, rhs)
 							*n++
 						}
 					}
@@ -799,12 +849,34 @@ func runCase(c Case) *vt.Outcome {
 			// error(\"missing\") apart from null and orders it elsewhere": put the
 			// missing keys into the null group in BOTH plans (streaming left on in
 			// the optimized one); if they then agree, that is the cause.
+			// Root cause "the input order is assumed to survive a fork whose branches
+			// are combined": take the direction out of the combine-fed summarizes only.
+			var nc int
+			if rc := runOnePost(seq, src, true, nil, noStreamingAfterCombine(&nc)); nc > 0 && rc.stage == "" && compare(plain.vals, rc.vals) == "" {
+				const combineSig = "C07/sortkey-summarize/input-order-assumed-through-fork-combine"
+				if vt.IsKnown(combineSig) {
+					o.Known = append(o.Known, combineSig)
+					return o
+				}
+				sig = combineSig
+				o.Fail = vt.Failf(sig, "%s\nprogram: %s\nsort key: %q desc=%v reader=%s\noptimized plan: %s", diff, c.Program, c.SortKey, c.Desc, c.Reader, opt.dag)
+				return o
+			}
 			var np, no int
 			pm := runOnePost(seq, src, false, missingKeyAsNull(opt.streamSigs, false, &np), nil)
 			om := runOnePost(seq, src, true, nil, missingKeyAsNull(nil, true, &no))
 			switch {
 			case np > 0 && no > 0 && pm.stage == "" && om.stage == "" && compare(pm.vals, om.vals) == "":
 				known = "C07/sortkey-summarize/null-and-missing-keys-interleaved"
+			case np > 0 && no > 0 && nc > 0 && pm.stage == "" && bothCausesAgree(seq, src, pm, compare):
+				// both root causes at once
+				const combineSig = "C07/sortkey-summarize/input-order-assumed-through-fork-combine"
+				known = "C07/sortkey-summarize/null-and-missing-keys-interleaved"
+				if vt.IsKnown(combineSig) {
+					o.Known = append(o.Known, combineSig)
+				} else {
+					known = combineSig
+				}
 			case hasNull && keyIsFloat(c) && regexp.MustCompile(`"kind":"Summarize","limit":\d+,"keys":\[\{"kind":"Assignment","lhs":\{[^{}]*\},"rhs":\{"kind":"Call","name":"(floor|ceil|round)"`).MatchString(opt.dag):
 				known = "C07/sortkey-summarize/rounding-function-of-null-float-key"
 			}
